@@ -176,10 +176,18 @@ fn index(buf: &[u8], bounds: &mut Bounds) -> io::Result<()> {
     // SAFETY: `src` is 2 bytes.
     let allele_count = usize::from(u16::from_le_bytes(src.try_into().unwrap()));
 
+    let site_buf = buf;
+
     let mut i = IDS_START_INDEX;
     let mut buf = &buf[i..];
 
     let (start, end) = consume_string(&mut buf, i)?;
+
+    // IDs are exposed as strings.
+    if str::from_utf8(&site_buf[start..end]).is_err() {
+        return Err(io::Error::from(io::ErrorKind::InvalidData));
+    }
+
     bounds.ids_range = start..end;
     i = end;
 
